@@ -556,6 +556,13 @@ def f5_compaction(rep, u, wt):
             rep.check(ok, "F5-compact", "compaction in %s" % f.name, c.where,
                       "copy datalen - bufpos bytes from &buf[bufpos]; then datalen -= bufpos; then bufpos = 0 (in that order)",
                       function=f.name, construct="compact")
+        # a function that resets the cursors (datalen -= bufpos; bufpos = 0) has moved the bytes first: the bookkeeping without the copy
+        # keeps the lengths and loses the data
+        adj = [e for e in f.all_elems() if e.is_assign and e.op == "-=" and strip_ids(norm(e.kid(0))) == DATALEN and strip_ids(norm(e.kid(1))) == BUFPOS]
+        cps = [c for c in f.calls(("memmove", "memcpy")) if strip_ids(norm(c.arg(1))) == ("&", ("[]", BUF, BUFPOS))]
+        for e in adj:
+            rep.check(any(f.dominates(c, e) for c in cps), "F5-compact", "%s: the cursors are reset only after the unconsumed bytes were moved" % f.name, e.where,
+                      "datalen -= bufpos with no copy from &buf[bufpos] before it", function=f.name, construct="compact-copy")
     if ntr < 2:
         rep.defer_broken("F5: fewer than 2 compaction sites")
 
